@@ -132,7 +132,7 @@ fn build_shared_inner(seed: u64, run: u64, thorough: bool, st: &mut Stats) -> Op
         }
         msgs.push(m);
     }
-    let callers = if thorough { 2 + w.usize(7) } else { 2 + w.usize(3) };
+    let callers = if thorough { 2 + w.usize(15) } else { 2 + w.usize(3) };
     let mut sh = Shared { prover, verifier, pp, prog: sc.prog.clone(), tape: sc.tape.clone(), msgs, plans: Vec::new() };
     let mut plans = Vec::new();
     for c in 0..callers {
